@@ -163,6 +163,15 @@ func (p c10) Run(c *core.Ctx) {
 		detail  string
 	}
 	var all []obs
+	plainName := []string{"a-plain-pp", "verif.zz-plain-pp", "m-plain-pp"}[c.Rng.Intn(3)]
+	// every 9th case: the definition scan of one component fails (a user scanner rejects it) - in every run,
+	// whatever the schedule of the parallel scan phase, the start then fails
+	scanFault, slowFault := map[string]bool{}, false
+	if c.Index%9 == 4 && len(sc.Nodes) > 0 {
+		scanFault[sc.Nodes[c.Rng.Intn(len(sc.Nodes))].DisplayName()] = true
+		slowFault = c.Rng.Intn(2) == 0
+		c.Count("cases_with_a_failing_definition_scan", 1)
+	}
 	nontrivial := family == "wrapped-cycle"
 	ambiguous := false
 	for o := 0; o < orders; o++ {
@@ -205,7 +214,10 @@ func (p c10) Run(c *core.Ctx) {
 			delays := map[string]int{}
 			var dmu sync.Mutex
 			perturb := o%3 == 1
-			opt.Extra = append(opt.Extra, &world.FaultScanner{Nm: "verif.yieldscanner", FailFor: map[string]bool{}, Gate: func(name string, _ bool) {
+			opt.Extra = append(opt.Extra, &world.FaultScanner{Nm: "verif.yieldscanner", FailFor: scanFault, Gate: func(name string, failing bool) {
+				if failing && slowFault {
+					time.Sleep(150 * time.Microsecond) // the failing scan is among the last to finish
+				}
 				if !perturb {
 					return
 				}
@@ -226,12 +238,24 @@ func (p c10) Run(c *core.Ctx) {
 		}
 		if plan != nil {
 			opt.Extra = append(opt.Extra, world.NewSubstituter(plan))
+			// a post-processor of the plain kind that changes nothing, next to the substituting one: whichever of
+			// them the registry enumerates last, the substitutions take place
+			opt.Extra = append(opt.Extra, &world.PlainPP{Nm: plainName})
 		}
 		r := world.Start(sc, opt)
 		c.Count("starts", 1)
 		c.Count("outcome_"+r.Outcome(), 1)
 		if len(dups) > 0 && r.Outcome() == "panic" && strings.Contains(fmt.Sprint(r.Panic), "duplicate") {
 			all = append(all, obs{outcome: "rejected-duplicate", detail: "registration rejected: " + core.Short(fmt.Sprint(r.Panic), 120)})
+			nontrivial = true
+			continue
+		}
+		if len(scanFault) > 0 {
+			if r.Outcome() != "error" {
+				c.Fail("", fmt.Sprintf("a user scanner rejects the definition of %v in every run (slow=%v), but in run %d App.Run returned %s", core.SortedKeys(scanFault), slowFault, o, r.Outcome()), failDetail(sc, r, nil))
+				return
+			}
+			all = append(all, obs{outcome: "error", detail: "definition scan failed"})
 			nontrivial = true
 			continue
 		}
